@@ -192,3 +192,5 @@ pub open spec fn void_elem(name: QualName) -> bool {
         || name.local == local_name!("link") || name.local == local_name!("meta") || name.local == local_name!("param")
         || name.local == local_name!("source") || name.local == local_name!("track") || name.local == local_name!("wbr"))
 }
+/// the element stack `parent()` works on: the stack itself, or one anonymous entry if it is empty
+pub open spec fn hser_base(st: Seq<ElemInfo>) -> Seq<ElemInfo> { if st.len() > 0 { st } else { seq![ElemInfo { html_name: None, ignore_children: false }] } }
